@@ -4,6 +4,7 @@ import os
 os.chdir('/verif/coq')
 def conv(src,dst):
     s=open(src).read()
+    s=s.replace("From WIP Require Import WorldSpec WorldCore WorldSplice WorldRead.","From AV.Spec Require Import WorldSpec.\nFrom AV.Proofs Require Import WorldCore WorldSplice WorldRead.")
     s=s.replace("From WIP Require Import WorldSpec WorldCore WorldSplice.","From AV.Spec Require Import WorldSpec.\nFrom AV.Proofs Require Import WorldCore WorldSplice.")
     s=s.replace("From WIP Require Import WorldSpec WorldCore.","From AV.Spec Require Import WorldSpec.\nFrom AV.Proofs Require Import WorldCore.")
     s=s.replace("From WIP Require Import WorldSpec.","From AV.Spec Require Import WorldSpec.")
